@@ -61,6 +61,10 @@ func mustRunBuiltin(fn *ssa.Function, name string, depth int) bool {
 		}
 		if len(b.Succs) == 0 {
 			if _, isRet := b.Instrs[len(b.Instrs)-1].(*ssa.Return); isRet {
+				// leaving without the delete is fine where a lookup has just said the key is absent
+				if name == "delete" && behindMissOfParamKey(fn, b) {
+					return true
+				}
 				return false
 			}
 			return true // panic exit
@@ -293,7 +297,18 @@ func isParamOrSpill(v ssa.Value, param *ssa.Parameter) bool {
 	}
 	if a, ok := v.(*ssa.Alloc); ok {
 		st := allocStores(a)
-		return len(st) == 1 && st[0].Val == ssa.Value(param) && spillUnmodified(a)
+		if len(st) != 1 || !spillUnmodified(a) {
+			return false
+		}
+		if st[0].Val == ssa.Value(param) {
+			return true
+		}
+		// a copy of a copy: the by-value parameter of a folded helper, initialised from the caller's own copy
+		if u, ok := st[0].Val.(*ssa.UnOp); ok && u.Op == token.MUL {
+			if a2, ok := u.X.(*ssa.Alloc); ok && a2 != a {
+				return isParamOrSpill(a2, param)
+			}
+		}
 	}
 	return false
 }
@@ -338,6 +353,41 @@ func copyOfParam(v ssa.Value, param *ssa.Parameter) bool {
 	}
 	if u, ok := v.(*ssa.UnOp); ok && u.Op == token.MUL {
 		return isParamOrSpill(u.X, param)
+	}
+	return false
+}
+
+
+// behindMissOfParamKey: block b is reached only through the 'absent' edge of a comma-ok lookup, in a map,
+// under a key that is a parameter of fn (or a field of one).
+func behindMissOfParamKey(fn *ssa.Function, b *ssa.BasicBlock) bool {
+	for _, blk := range fn.Blocks {
+		for _, in := range blk.Instrs {
+			lk, ok := in.(*ssa.Lookup)
+			if !ok || !lk.CommaOk {
+				continue
+			}
+			if _, isMap := lk.X.Type().Underlying().(*types.Map); !isMap {
+				continue
+			}
+			isParamKey := false
+			for _, pr := range fn.Params {
+				if lk.Index == ssa.Value(pr) {
+					isParamKey = true
+				}
+				if f, base, ok := loadedField(lk.Index); ok && f != nil && isParamOrSpill(base, pr) {
+					isParamKey = true
+				}
+			}
+			if !isParamKey {
+				continue
+			}
+			for _, rf := range refsOf(lk) {
+				if e, ok := rf.(*ssa.Extract); ok && e.Index == 1 && behindFalseEdge(e, b) {
+					return true
+				}
+			}
+		}
 	}
 	return false
 }
